@@ -7,8 +7,10 @@
    namespace is [h] on the database; [c_run f items] runs a history on the file
    system [f] the way the code does: every operation reads and parses the key file,
    mutators write "<file>.tmp" chunk by chunk and rename it over the key file; an item
-   [Crash h o lens k cut] dies before file-system step k of the operation, after the
-   first [cut] bytes of that step if it is a write.  [rel f d] (Proofs/KeyStore.v): d is
+   [Crash h o lens k cut] dies before file-system step k of the operation completes;
+   write() only fills the buffer of the file object, close() flushes it, and of the data
+   the file object holds at the death (including an interrupted write) only the first
+   [cut] bytes had reached the file - every buffering policy of the runtime is some cut.  [rel f d] (Proofs/KeyStore.v): d is
    well formed (names are printable ASCII without quote and backslash) and the key file
    of f reads as d (a missing file reads as the empty database); nothing is assumed
    about the ".tmp" file or the directory. *)
@@ -140,8 +142,8 @@ Print Assumptions C15_other_handles_unchanged.
 
 (* ------------------------------------------------------------------ crash atomicity *)
 (* For every operation, every crash point k of its file-system step list (directory
-   creation, temp-file open, each write, close, rename), every cut of an interrupted
-   write and every chunking: the steps up to the crash succeed, the key file is
+   creation, temp-file open, each buffered write, close = flush, rename), every amount
+   [cut] of the buffered data that had reached the disk at the death and every chunking: the steps up to the crash succeed, the key file is
    byte-for-byte the previous text or the complete new text, and it reads as the
    complete previous database (crash before the rename) or the complete new one. *)
 Theorem C15_crash_atomic : forall f d h o lens k cut,
@@ -288,3 +290,16 @@ Example C15_direct_write_not_atomic :
   | None => False
   end.
 Proof. vm_compute. reflexivity. Qed.
+
+(* why the rename has to come after the close (seeded change C15-g moved os.replace inside the
+   with block): write() only fills the file object's buffer, so renaming first publishes a
+   file whose data is still in the buffer; a process death before the close leaves the key file
+   empty *)
+Example C15_rename_before_close_not_atomic :
+  let d := [(S_ "NS1", [(S_ "A", to_dict ex_keys)])] in
+  let f := mkFs true (Some (ser_db d)) None in
+  match crash_exec 3 0 [SOpenTrunc PTmp; SWrite PTmp (ser_db d); SRename PTmp PMain; SClose PMain] f with
+  | Some f' => f_main f' = Some [] /\ read_db f' = None
+  | None => False
+  end.
+Proof. vm_compute. split; reflexivity. Qed.
